@@ -3,6 +3,8 @@ package engines
 import (
 	"fmt"
 	"os"
+	"reflect"
+	"regexp"
 	"unicode"
 	"sort"
 	"strconv"
@@ -18,7 +20,8 @@ import (
 // Engine draw — C01 / C13 / C09: draw histories on a real terminfo screen over a FakeTty.
 //
 // line:  draw <entry> <tc> <w> <h> <op>; <op>; …
-//   entry = name of a built-in terminal description, tc = 1 direct colour on (standard RGB strings added if the
+//   entry = name of a built-in terminal description (`name%pad=<hex of a padding form>`: the same description with every
+//   `$<…>` of its strings rewritten to that padding form, e.g. `10/`, `2.5*`: judged by the oracle only), tc = 1 direct colour on (standard RGB strings added if the
 //   entry has none, as LookupTerminfo does for COLORTERM=truecolor) / 0 off (TCELL_TRUECOLOR=disable)
 //   ops:  S x y main comb style (SetContent; comb `-` = nil slice, `=` = empty NON-nil slice, else r,r,…) |
 //         SC x y style r [r…] (Screen.SetCell: primary rune then combining runes) |
@@ -179,6 +182,41 @@ func drawTi(name string, tc bool) *terminfo.Terminfo {
 		ti.SetFgBgRGB = "\x1b[38;2;%p1%d;%p2%d;%p3%d;48;2;%p4%d;%p5%d;%p6%dm"
 	}
 	return &ti
+}
+
+// padSpecRe: a well-formed terminfo(5) padding specification: `$<` number with at most one decimal place, then the
+// flags `*` (proportional) and `/` (mandatory) in either order, `>`.
+var padSpecRe = regexp.MustCompile(`\$<[0-9]+(\.[0-9])?(\*/?|/\*?)?>`)
+var padAnyRe = regexp.MustCompile(`\$<[^>]*>`)
+
+// drawPadForms: the padding forms terminfo(5) allows (the built-in database itself only has plain integers and one `/`)
+var drawPadForms = []string{"5", "50", "200", "2.5", "0.5", "10*", "10/", "10*/", "10/*", "2.5*", "2.5/", "1.5*/"}
+
+// withPadForm: a copy of the description in which every padding specification carries the given form
+func withPadForm(ti *terminfo.Terminfo, form string) *terminfo.Terminfo {
+	c := *ti
+	v := reflect.ValueOf(&c).Elem()
+	for i := 0; i < v.NumField(); i++ {
+		if f := v.Field(i); f.Kind() == reflect.String && f.CanSet() && strings.Contains(f.String(), "$<") {
+			f.SetString(padAnyRe.ReplaceAllLiteralString(f.String(), "$<"+form+">"))
+		}
+	}
+	return &c
+}
+
+// paddedEcmaEntries: the ECMA entries with a padding specification in any capability other than the key strings
+func paddedEcmaEntries() []string {
+	var out []string
+	for _, name := range ecmaEntries() {
+		v := reflect.ValueOf(*terminfo.VerifEntries()[name])
+		for i := 0; i < v.NumField(); i++ {
+			if f := v.Field(i); f.Kind() == reflect.String && !strings.HasPrefix(v.Type().Field(i).Name, "Key") && padAnyRe.MatchString(f.String()) {
+				out = append(out, name)
+				break
+			}
+		}
+	}
+	return out
 }
 
 func cornerTrick(ti *terminfo.Terminfo) bool {
@@ -422,9 +460,16 @@ func execDraw(line string) (res h.Result) {
 		name, charset = name[:i], name[i+1:]
 	}
 	utf8loc := charset == "UTF-8"
+	padForm := ""
+	if i := strings.Index(name, "%pad="); i >= 0 {
+		name, padForm = name[:i], string(h.Unhex(name[i+5:]))
+	}
 	ti := drawTi(name, tc)
 	if ti == nil {
 		return h.Result{Obs: "no-entry"}
+	}
+	if padForm != "" {
+		ti = withPadForm(ti, padForm)
 	}
 	os.Setenv("LC_ALL", "en_US."+charset)
 	os.Setenv("TCELL_ALTSCREEN", "")
@@ -452,11 +497,24 @@ func execDraw(line string) (res h.Result) {
 	var obs []string
 	emuOps := []string{}
 	block := 0
+	var written [][2]string // (tag, bytes) of everything the screen wrote: Init, every op, Fini
+	appDollar := false      // the application itself supplied a '$' (cell content, hyperlink): see padding-residue below
+	supplied := func(st StyleF, rs ...int) {
+		for _, r := range rs {
+			if r == '$' {
+				appDollar = true
+			}
+		}
+		if strings.Contains(st.Url, "$") || strings.Contains(st.UrlId, "$") {
+			appDollar = true
+		}
+	}
 	record := func(tag string, bs [][]byte) bool {
 		b := joinBlocks(bs)
 		if len(b) == 0 {
 			return false
 		}
+		written = append(written, [2]string{tag, string(b)})
 		obs = append(obs, tag+":"+h.Hex(b))
 		emuOps = append(emuOps, "W "+h.Hex(b))
 		block++
@@ -627,6 +685,7 @@ func execDraw(line string) (res h.Result) {
 				}
 				scr.SetContent(x, y, rune(m), cr, st.ToStyle())
 			}
+			supplied(st, append([]int{m}, comb...)...)
 			if inr(x, y) {
 				c := get(x, y)
 				if st.Fg == ColorNoneU {
@@ -664,6 +723,7 @@ func execDraw(line string) (res h.Result) {
 			}
 		case "F":
 			r, st := h.Atoi(t[1]), ParseStyleF(t[2])
+			supplied(st, r)
 			scr.Fill(rune(r), st.ToStyle())
 			for y := 0; y < sh.h; y++ {
 				for x := 0; x < sh.w; x++ {
@@ -681,6 +741,7 @@ func execDraw(line string) (res h.Result) {
 			markAllChanged()
 		case "Y":
 			st := ParseStyleF(t[1])
+			supplied(st)
 			scr.SetStyle(st.ToStyle())
 			sh.style = st
 		case "C":
@@ -1022,7 +1083,29 @@ func execDraw(line string) (res h.Result) {
 	scr.Fini()
 	<-done
 	record("z", tty.TakeWrites())
+	// C09 "no stray parameter-language residue": padding specifications are instructions to the output routine (delays),
+	// never bytes for the terminal; a tokenizer accepts `$<10/>` as five printable characters, so this is judged on the
+	// bytes themselves, over everything the screen wrote (Init, every draw, Sync, Fini).  Sound because the application
+	// supplied no '$' in this case (otherwise the same bytes could be legitimate cell content: not judged).
+	if appDollar {
+		tags["padding-residue-not-judged"] = true
+	} else {
+		for _, wb := range written {
+			if m := padSpecRe.FindString(wb[1]); m != "" && len(res.Findings) < 6 {
+				res.Findings = append(res.Findings, h.Finding{Class: "padding-residue", Msg: fmt.Sprintf(
+					"the bytes written by op %q contain the terminfo padding specification %q (entry %s%s): it was sent to the terminal instead of being consumed by the output routine",
+					wb[0], m, name, map[bool]string{true: ", padding form " + padForm, false: ""}[padForm != ""])})
+				break
+			}
+		}
+		if strings.Contains(ti.Clear+ti.AttrOff+ti.SetCursor+ti.EnterAcs+ti.ExitAcs+ti.Bold+ti.Reverse+ti.CursorBack1, "$<") {
+			tags["padding-entry-judged"] = true
+		}
+	}
 	res.Obs = strings.Join(obs, " ")
+	if padForm != "" {
+		res.Obs = "SKIP description with rewritten padding forms: judged by the oracle only"
+	}
 	if !utf8loc {
 		res.Obs = "SKIP 8-bit locale: judged by the oracle only (the byte-level model is instantiated for UTF-8)"
 	}
@@ -1134,7 +1217,34 @@ func fitOps(name string, cols map[uint64]bool) []string {
 // colours, and with a hyperlink (with and without id) followed by a plain cell, then Shows twice.  A slip in one
 // per-entry capability string (or in the code that picks it) is then judged by the emulator oracle on a concrete
 // input, in every tier, whatever the seed.
+// genDrawPadding: fixed cases (every tier, every seed) on the ECMA entries that carry padding in a capability the draw /
+// engage / disengage paths emit (enumerated from the database: vt100, vt102, vt220, vt400, vt420, wy99…): the entry as it
+// is AND with every padding form of terminfo(5) (drawPadForms: integer, one decimal, `*`, `/`, both) — attributes,
+// colours, cursor motion, a line-drawing rune (ACS in the 8-bit locale), Show, Sync (clear), Show, Fini.
+func genDrawPadding(g *h.Gen) {
+	forms := append([]string{""}, drawPadForms...)
+	for fi, form := range forms { // the built-in descriptions as they are first, then the rewritten forms
+		for ei, name := range paddedEcmaEntries() {
+			if form != "" && (fi+ei)%3 != 0 && !strings.Contains(form, []string{"/", "*", "."}[ei%3]) {
+				continue // every form on a third of the entries in rotation; `/`, `*`, decimal forms on one more entry each
+			}
+			tok := name
+			if form != "" {
+				tok += "%pad=" + h.Hex([]byte(form))
+			}
+			for _, cs := range []string{"", "@ISO8859-1"} {
+				ops := []string{
+					"S 0 0 97 - " + StyleF{Attrs: 1}.String(), "S 1 0 98 - " + StyleF{Attrs: 4}.String(), "S 2 0 9472 - " + StyleF{Attrs: 2}.String(),
+					"S 3 1 99 - " + StyleF{Attrs: 16, UlStyle: 1}.String(), "S 0 1 9474 - 0,0,0,0,0,-,-", "C 1 1", "W",
+					"S 2 1 100 - 0,0,0,0,0,-,-", "W", "N", "S 0 0 101 - 0,0,0,0,0,-,-", "C -1 -1", "W"}
+				g.Emit("draw %s 0 5 2 %s", withVariant(tok+cs), strings.Join(ops, "; "))
+			}
+		}
+	}
+}
+
 func genDrawMatrix(g *h.Gen) {
+	genDrawPadding(g)
 	for _, name := range ecmaEntries() {
 		for tc := 0; tc < 2; tc++ {
 			var ops []string
@@ -1819,6 +1929,6 @@ func init() {
 		Rule: "every code point (quick: all below U+3000, every 61st above, boundary values; thorough: all 0x110000) and out-of-range rune values as primary cell content in the first, a middle and the last column; UTF-8 and ISO8859-1 locales; the same through Fill, one rune per 3x1 screen (quick: all below U+0370, the format/control blocks, boundary and out-of-range values; thorough: all below U+3000, every zero-width or must-be-blank code point, every 61st); plus base x combining-mark cells in UTF-8 and five 8-bit charsets (SUB-answering and error-answering charmaps); 12 cells per case; every case is non-trivial",
 		Gen:  genDrawCP, Exec: execDraw})
 	h.Register(&h.Engine{Name: "draw",
-		Rule: "stores go through SetContent (nil or empty non-nil combining slice) or Screen.SetCell; a fixed attribute/underline/colour/hyperlink matrix and a colour sweep (fg, bg, underline colour over all of palette 0..15, 22 indices of 16..255, 16 direct colours) for every ECMA-family entry x direct colour on/off; directed histories: wide rune beside a locked cell, a column covered by a wide rune and uncovered again by Fill / Clear / another wide rune / a narrow store, stores of identical and different content into the hidden column, lock regions locked twice / overlapping / never locked / re-locked / partly unlocked, identical content re-stored through every store route; then random draw histories (4-36 ops) on a real terminfo screen over a fake tty, every ECMA-family entry, direct colour on/off, sizes 2..7 x 1..4; distinct = distinct line; non-trivial = at least one in-range SetContent",
+		Rule: "fixed cases on every ECMA entry that carries padding, as it is and with every terminfo(5) padding form; stores go through SetContent (nil or empty non-nil combining slice) or Screen.SetCell; a fixed attribute/underline/colour/hyperlink matrix and a colour sweep (fg, bg, underline colour over all of palette 0..15, 22 indices of 16..255, 16 direct colours) for every ECMA-family entry x direct colour on/off; directed histories: wide rune beside a locked cell, a column covered by a wide rune and uncovered again by Fill / Clear / another wide rune / a narrow store, stores of identical and different content into the hidden column, lock regions locked twice / overlapping / never locked / re-locked / partly unlocked, identical content re-stored through every store route; then random draw histories (4-36 ops) on a real terminfo screen over a fake tty, every ECMA-family entry, direct colour on/off, sizes 2..7 x 1..4; distinct = distinct line; non-trivial = at least one in-range SetContent",
 		Gen:  genDraw, Exec: execDraw})
 }
